@@ -84,6 +84,19 @@ def main(pid):
                                          "meta": [(w["f"], "".join(map(chr, w["v"])), w["off"]) for w in c["w"]]} for c in o["cites"]]},
                          {"clause": cl, "tok": it.get("tok"), "markup": "markup" in it,
                           "shape": re.sub(r"[A-Za-z]+", "w", re.sub(r"\d+", "9", text))[:50]})
+    # step-level conformance of Extract.tla: match_on_tokens events (guarded hook) bind the model's
+    # matcher results, TLC recomputes every span and every window length
+    sdocs = [d for d in plain if "\x00" not in d][:: (2 if thorough else 5)]
+    sobs = vlib.impl_map("drv_extract", "run_steps", [{"text": d} for d in sdocs])
+    if sobs and all(o.get("hooks") for o in sobs):
+        straces = [{"cites": o["cites"]} for o in sobs]
+        _, drifts = tlc_judge("Trace_ExtractSteps", "Trace_ExtractSteps.cfg", straces, ev, "steps", chunk=1500)
+        for ix, rest in drifts:
+            vd.spec_drift("Extract", f"document {sdocs[ix][:90]!r}: {rest[:300]}")
+        ev.cov["step_level_citations_recomputed"] = sum(len(o["cites"]) for o in sobs)
+    else:
+        ev.cov["step_level_citations_recomputed"] = 0
+        ev.cov["step_level_note"] = "hook events unavailable (eyecite._verif missing or guard off): implementation-model layer skipped"
     ev.sample({"text": "".join(map(chr, obs[0]["text"])), "cites": [(c["cls"], c["s"], c["e"], c["fs"], c["fe"]) for c in obs[0]["cites"]]})
     ev.cov["traces_validated_against_impl"] = len(obs)
     ev.cov["evaluations"] = len(obs)
